@@ -378,3 +378,19 @@ def judge_traces(ctx, family, module, cfg, trace_path, parts=None, timeout=1800,
                 raise Broken("trace monitor consumed %d of %d records of %s" % (res.distinct, ch[1], ch[0]))
             flags.extend(res.flags)
     return flags, n
+
+
+def apalache_lemma(ctx, module="SeqWindowLemma", inv="Lemma", timeout=600):
+    """Discharge a constant-level lemma with Apalache (symbolic, length 0)."""
+    d = ctx.path("apalache", "x")[:-2]
+    shutil.copy(os.path.join(SPEC, "common", module + ".tla"), d)
+    cmd = ["apalache-mc", "check", "--length=0", "--init=Init", "--next=Next", "--inv=" + inv,
+           "--out-dir=" + os.path.join(d, "out"), module + ".tla"]
+    try:
+        p = subprocess.run(cmd, cwd=d, stdout=subprocess.PIPE, stderr=subprocess.STDOUT, text=True, timeout=timeout,
+                           env=dict(os.environ, JAVA_TOOL_OPTIONS="-Djava.io.tmpdir=" + d))
+    except subprocess.TimeoutExpired:
+        raise Broken("Apalache timed out on " + module)
+    if "EXITCODE: OK" not in p.stdout or "NoError" not in p.stdout:
+        raise Broken("Apalache did not prove %s!%s:\n%s" % (module, inv, p.stdout[-2000:]))
+    return True
